@@ -48,6 +48,7 @@ REQUIRED = ['histories', 'success_checked', 'refusal_checked',
             'clean_valid_admitted', 'preauth_probes', 'restriction_probes',
             'gated_histories', 'signature_defects', 'positive_logins',
             'user_switches', 'exec_reordered', 'preauth_app_checked',
+            'kbdpw_dialogues',
             'cert_logins', 'cert_refusals_expected',
             'cert_admissions_expected']
 BUDGET_S = {'quick': 300, 'thorough': 3400}
@@ -195,6 +196,18 @@ def gen_cases(tier, seed):
                       'exec_order': rng.choice(['eager', 'late_fifo', 'late_lifo',
                                              'steps:rand', 'steps:rand']),
                       'chunk': 'all', 'cseed': rng.randrange(1 << 30)})
+
+    # the built-in "password over keyboard-interactive" front (application
+    # has a password validator only): sync and async validators, right and
+    # wrong answers
+    for i in range(24 if tier == 'quick' else 400):
+        cases.append({'kind': 'kbdpw', 'async_validator': i % 2 == 0,
+                      'answers': rng.choice([['wrong'], ['right'],
+                                             ['wrong', 'right'],
+                                             ['wrong', 'wrong', 'wrong'],
+                                             ['', 'right'], ['right', 'x']]),
+                      'chunk': rng.choice(['all', 'record', 'random']),
+                      'cseed': rng.randrange(1 << 30)})
 
     # certificate credentials: every way a certificate can be wrong
     for i in range(240 if tier == 'quick' else 4000):
@@ -785,6 +798,101 @@ async def _probe_restrictions(env, peer, acc, rec, mon, viol, steps):
                                f'steps={steps}'})
 
 
+# ------------------------------------------------------------------ kbdint front
+
+def _run_kbdpw(case, mon, viol):
+    info = {}
+
+    async def main(loop):
+        rec = []
+
+        class Srv(apps.RecServer):
+            def begin_auth(self, username):
+                return True
+
+            def password_auth_supported(self):
+                return True
+
+            def validate_password(self, username, password):
+                ok = password == 'right'
+                rec.append(('validate_password', username, password, ok))
+                if case['async_validator']:
+                    async def later():
+                        await asyncio.sleep(0)
+                        return ok
+                    return later()
+                return ok
+
+            def auth_completed(self):
+                rec.append(('auth_completed',))
+
+        async with scen.Env(loop, server_factory=lambda: Srv(
+                apps.EventLog()), chunking=case['chunk'],
+                seed=case['cseed']) as env:
+            peer = refpeer.RefPeer('client', loop=loop)
+            await env.wire.create_connection(lambda: peer, 'h', 22)
+            await peer.handshake()
+            await peer.request_service()
+            peer.skip_unimplemented = True
+            outcome = []
+            for ans in case['answers']:
+                if peer.closed:
+                    break
+                peer.send(peer.userauth_request(
+                    b'user', b'keyboard-interactive',
+                    R.sstr(b'') + R.sstr(b'')))
+                p = await peer.recv()
+                if p[0] != 60:
+                    outcome.append(('no_challenge', p[0]))
+                    continue
+                r = R.Reader(p, 1)
+                r.str(), r.str(), r.str()
+                n = r.u32()
+                peer.send(bytes([61]) + R.u32(n) +
+                          R.sstr(ans.encode()) * n)
+                p = await peer.recv()
+                # a further (empty) round may follow before the verdict
+                while p[0] == 60:
+                    peer.send(bytes([61]) + R.u32(0))
+                    p = await peer.recv()
+                outcome.append((ans, p[0]))
+                if p[0] == R.MSG_USERAUTH_SUCCESS:
+                    break
+            await env.settle()
+            mon['kbdpw_dialogues'] += 1
+            info.update(outcome=outcome, rec=rec[:8])
+            granted = ('auth_completed',) in rec or any(
+                t == R.MSG_USERAUTH_SUCCESS for _, t in outcome)
+            accepted = [e for e in rec if e[0] == 'validate_password' and
+                        e[3]]
+            if granted and not accepted:
+                viol.append({
+                    'mechanism': 'granted_without_credential',
+                    'detail': f'password over keyboard-interactive '
+                              f'(async validator={case["async_validator"]}'
+                              f'): authenticated although the validator '
+                              f'never accepted; answers={case["answers"]} '
+                              f'outcome={outcome} rec={rec}'})
+            want = 'right' in case['answers'][:3]
+            first_right = case['answers'].index('right') \
+                if 'right' in case['answers'] else None
+            if first_right is not None and not granted and \
+                    len(outcome) > first_right:
+                viol.append({
+                    'mechanism': 'valid_credential_refused',
+                    'detail': f'right password over keyboard-interactive '
+                              f'refused: {outcome}'})
+            if not peer.closed:
+                peer.close()
+            await env.settle()
+            for ev in env.san.drain():
+                viol.append({'mechanism': 'sanitizer_' + ev['kind'],
+                             'detail': ev})
+
+    scen.run(main)
+    return info
+
+
 # ------------------------------------------------------------------ certificates
 
 def _pat_match(patterns, values):
@@ -1097,6 +1205,8 @@ def run_case(case):
             info = _run_history(case, mon, viol)
         elif case['kind'] == 'certgrid':
             info = _run_certgrid(case, mon, viol)
+        elif case['kind'] == 'kbdpw':
+            info = _run_kbdpw(case, mon, viol)
         else:
             info = _run_positive(case, mon, viol)
     except vloop.QuiescentHang as exc:
@@ -1106,7 +1216,7 @@ def run_case(case):
                      'detail': repr(exc)})
 
     nontrivial = mon['histories'] or mon['positive_logins'] or \
-        mon['cert_logins']
+        mon['cert_logins'] or mon['kbdpw_dialogues']
     seen = set()
     uniq = []
     for v in viol:
